@@ -7,6 +7,7 @@ import (
 	"context"
 	"fmt"
 	"io"
+	"math"
 	"net/http"
 	"strconv"
 	"strings"
@@ -106,7 +107,8 @@ func ReceiveDirectInvoke(w http.ResponseWriter, r *http.Request, token interop.T
 
 	MaxDirectResponseSize = interop.MaxPayloadSize
 	if maxPayloadSize := r.Header.Get(MaxPayloadSizeHeader); maxPayloadSize != "" {
-		if n, err := strconv.ParseInt(maxPayloadSize, 10, 64); err == nil && n >= -1 {
+		// the copy reads one byte past the limit to detect oversized responses, so limit+1 must not overflow
+		if n, err := strconv.ParseInt(maxPayloadSize, 10, 64); err == nil && n >= -1 && n < math.MaxInt64 {
 			MaxDirectResponseSize = n
 		} else {
 			log.Error("MaxPayloadSize header is not a valid number")
